@@ -84,9 +84,12 @@ impl Lex {
     }
 
     pub fn next_nonws(&mut self) -> Xresult1<Tok> {
-        match self.next() {
-            Ok(Tok::Whitespace(_)) | Ok(Tok::Comment(_)) => self.next(),
-            tok => tok,
+        // skip every run of whitespace and comments, not just the first one
+        loop {
+            match self.next() {
+                Ok(Tok::Whitespace(_)) | Ok(Tok::Comment(_)) => continue,
+                tok => break tok,
+            }
         }
     }
 
